@@ -211,6 +211,16 @@ CLAIMS["C09"] = {
     "note": "Interleaving-level behaviour is not decided. The dangling-pointer defect found here was repaired by 41075a1.",
 }
 CLAIMS["C08"]["note"] = "Invisibility of later mutation follows from copy + heap separation; heap separation for channels is CH-OWN under C09."
+CLAIMS["C10"]["text"] += " Queue maintenance (picking up spawned and returning threads, handing the stepped thread back) happens after every turn of the stepping loop and never only at slice entry or exit, and no per-slice local steers which thread runs (SLICE-INVARIANT)."
+CLAIMS["C07"]["text"] += " heap_size is a ledger of nbytes(): every buffer-growing operation on a live object adjusts it by the delta of the very quantity nbytes() uses, times its unit (HEAP-ACCT)."
+CLAIMS["C08"]["text"] += " Every object allocated anywhere in deep_copy - fast paths and early returns included - receives only payload built from recursive copies (GC-CHILDREN payload-not-copied)."
+CLAIMS["C13"]["text"] += " Child-row results are joined into their parent row with an accumulating write, never overwritten per child (USEFUL-JOIN)."
+CLAIMS["C18"]["text"] += " The reorder table is written and read under the id of the call expression itself at every site (CALL-KEY)."
+CLAIMS["C14"]["text"] += " Every recursive pattern traversal (comparison, binding, or-decision traversal, locals, resolver, checker, exhaustiveness, editor helpers) descends into every sub-pattern position, including the positional and the named payload form (PAT-VISIT); constructor, patterns and host bindings agree that a variant payload is a struct exactly when the variant declares several fields (PAYLOAD-REPR)."
+CLAIMS["C01"]["text"] += " Variant payload representation agrees between constructor, patterns and host bindings (PAYLOAD-REPR)."
+for _c in ("C04", "C20", "C12", "C03"):
+    CLAIMS[_c]["text"] += " Pattern traversals of the front end and generator descend into every sub-pattern position (PAT-VISIT)."
+CLAIMS["C16"]["text"] += " Constant folds of float operations are declined, by value and not by spelling, wherever the VM arm stops with an error (FOLD)."
 NOT_APPLICABLE["C33"] = "unit inference (char index vs byte offset vs token index) over lexer/parser/diagnostics needs the type-resolved MIR engine with per-field def-use; that engine was not completed in the time available, and no sound syntactic proxy was found (a name-based one would alarm on behaviour-preserving edits)"
 
 for _p in []:
